@@ -1,7 +1,116 @@
-"""Native replay: bounded searches that run the REAL code of /repo looking for an input that breaks the
-clause behind a failed obligation.  Filled in per property (see native_* modules)."""
+"""Native replay / bounded stand-in: runs the REAL code of the repository under the contract monitors.
+
+search(pid, failed_items, repo, seed): looks for a concrete input (scenario, seed) on which a clause tagged
+with the property (or the clause of a failed obligation) is violated by the real code.  Runs in a child
+process so that the monitored modules never leak into the checker."""
 from __future__ import annotations
+import json
+import os
+import subprocess
+import sys
+import time
+
+HERE = os.path.dirname(os.path.abspath(__file__))
+
+PROP_SCENARIOS = {
+    "C01": ["status", "container", "pool"], "C02": ["status", "pool", "executor"], "C03": ["pool", "executor"],
+    "C04": ["pool", "killer", "container"], "C05": ["container", "pool"], "C09": ["executor", "pool"],
+    "C10": ["pool", "executor"], "C11": ["killer", "pool"],
+}
 
 
-def search(pid, failed_items, repo, seed):
-    return {"found": False, "note": "no native search registered for this obligation"}
+def search(pid, failed_items, repo, seed, budget_s=90, n_seeds=400, procs=12):
+    """parallel bounded search: `procs` child processes, each with its own seed range"""
+    want = [it["obligation"] for it in failed_items]
+    env = dict(os.environ, PYTHONPATH=os.pathsep.join([os.path.join(HERE, ".deps"), HERE]))
+    children = []
+    for i in range(procs):
+        cmd = [sys.executable, os.path.join(HERE, "native.py"), "--child", pid, repo, str(seed * 1000 + i), str(budget_s), str(n_seeds), json.dumps(want)]
+        children.append(subprocess.Popen(cmd, stdout=subprocess.PIPE, stderr=subprocess.PIPE, text=True, env=env))
+    results, errors = [], []
+    deadline = time.time() + budget_s + 60
+    for ch in children:
+        try:
+            out, err = ch.communicate(timeout=max(1, deadline - time.time()))
+            line = [l for l in out.splitlines() if l.startswith("RESULT ")]
+            if line:
+                results.append(json.loads(line[-1][7:]))
+            else:
+                errors.append((err or out)[-400:])
+        except Exception as e:  # pragma: no cover
+            ch.kill()
+            errors.append(repr(e))
+    found = [r for r in results if r.get("found")]
+    total_runs = sum(r.get("scenario_runs", 0) for r in results)
+    stats = {}
+    for r in results:
+        for k, v in r.get("monitor_stats", {}).items():
+            stats[k] = stats.get(k, 0) + v
+    base = found[0] if found else (results[0] if results else {"found": False})
+    base = dict(base, scenario_runs=total_runs, monitor_stats=stats, processes=procs)
+    if errors and not results:
+        base["error"] = errors[0]
+    return base
+
+
+def run_scenarios(pid, repo, seed, budget_s, n_seeds, want=(), stop_at_first=True, scenarios=None):
+    import importlib
+    sys.path.insert(0, HERE)
+    from pyvc import cli
+    from pyvc.native_monitor import Monitor
+    from pyvc import native_scenarios as NS
+    S = cli.load_spec()
+    mon = Monitor(S, repo)
+    mon.install()
+    t0 = time.time()
+    hits = []
+    names = scenarios or PROP_SCENARIOS.get(pid, list(NS.SCENARIOS))
+    runs = 0
+    for k in range(n_seeds):
+        for sc in names:
+            if time.time() - t0 > budget_s:
+                break
+            sd = seed * 100003 + k
+            mon.violations = []
+            try:
+                NS.SCENARIOS[sc](mon, sd)
+            except Exception as e:
+                mon.violations.append({"obligation": f"scenario:{sc}:crash", "clause": f"{type(e).__name__}: {e}", "tags": [], "args": {}})
+            runs += 1
+            for v in mon.violations:
+                rel = (pid in v["tags"]) or (v["obligation"] in want) or not v["tags"]
+                if v["obligation"].endswith(":crash") and not want:
+                    rel = False
+                if rel:
+                    hits.append(dict(v, scenario=sc, seed=sd))
+            if hits and stop_at_first:
+                break
+        if hits and stop_at_first:
+            break
+    mon.uninstall()
+    return {"found": bool(hits), "witnesses": hits[:3], "scenario_runs": runs, "scope": NS.SCOPE, "monitor_stats": mon.stats,
+            "how": "python native.py --replay <scenario> <seed>  (re-runs the real code with the contract monitors installed)"}
+
+
+if __name__ == "__main__":
+    if sys.argv[1] == "--child":
+        pid, repo, seed, budget, n_seeds, want = sys.argv[2], sys.argv[3], int(sys.argv[4]), float(sys.argv[5]), int(sys.argv[6]), json.loads(sys.argv[7])
+        res = run_scenarios(pid, repo, seed, budget, n_seeds, want)
+        print("RESULT " + json.dumps(res))
+    elif sys.argv[1] == "--replay":
+        sc, sd = sys.argv[2], int(sys.argv[3])
+        sys.path.insert(0, HERE)
+        from pyvc import cli
+        from pyvc.native_monitor import Monitor
+        from pyvc import native_scenarios as NS
+        mon = Monitor(cli.load_spec(), os.environ.get("VERIF_REPO", "/repo"))
+        mon.install()
+        NS.SCENARIOS[sc](mon, sd)
+        print(json.dumps(mon.violations, indent=1))
+        sys.exit(1 if mon.violations else 0)
+    elif sys.argv[1] == "--validate":
+        # contracts as monitors over many scenarios on the current tree: nothing may fire
+        res = run_scenarios("*", os.environ.get("VERIF_REPO", "/repo"), int(sys.argv[2]) if len(sys.argv) > 2 else 1,
+                            float(sys.argv[3]) if len(sys.argv) > 3 else 60, 10**6, stop_at_first=False,
+                            scenarios=["status", "container", "killer", "pool", "executor"])
+        print(json.dumps(res, indent=1)[:6000])
